@@ -334,6 +334,32 @@ def h_jws_multi(ctx):
     return Outcome(f"jws-multi:{'ok' if r.ok else 'rej'}:{'allowed' if allowed else 'not-allowed'}", vs, nontrivial=(repr(other), shape, pos, form, how))
 
 
+def h_jws_many(ctx):
+    """Signing a general JSON JWS with many members (2 .. 64), one of which names an algorithm the caller did not allow - anywhere in the list."""
+    from joserfc import jws
+    n = ctx.choose("members", [2, 15, 16, 17, 33, 64])
+    other = ctx.choose("other_alg", ["HS512", "HS384", "none", "FOO", 7])
+    pos = ctx.choose("position", ["first", "middle", "last"])
+    where = ctx.choose("named_in", ["protected", "unprotected"])
+    how = ctx.choose("given_as", ["absent", "algorithms", "registry"])
+    key = A.jkey(scen.key("oct64", 1), "dict")
+    members = [{"protected": {"alg": "HS256"}} for _ in range(n)]
+    i = {"first": 0, "middle": n // 2, "last": n - 1}[pos]
+    members[i] = {"protected": {"alg": other}} if where == "protected" else {"header": {"alg": other}}
+    L = None if how == "absent" else ["HS256"]
+    kw = {} if how == "absent" else ({"algorithms": list(L)} if how == "algorithms" else {"registry": jws.JWSRegistry(algorithms=list(L))})
+    r = call(jws.serialize_json, members, b"payload", key, **kw)
+    allowed = usable(other, L, JWS_SUPPORTED, JWS_REC, False)
+    vs = []
+    cls = "none" if other == "none" else ("non-string" if not isinstance(other, str) else ("unknown" if other not in JWS_SUPPORTED else other[:2] + "*"))
+    what = f"general JSON JWS with {n} members, member {i} names alg={other!r} in its {where} header, the others HS256; allow-list {L!r} given as {how}"
+    if r.ok and not allowed:
+        vs.append(viol(f"JWS sign succeeds although a member names an algorithm the caller did not allow [{cls}, {how}, many members]", what))
+    elif not r.ok and isinstance(other, str) and other != "none" and not is_unsupported_error(r.exc):
+        vs.append(viol(f"JWS sign: a disallowed well-typed algorithm name in one of many members is not reported as unsupported-algorithm [{cls}, {type(r.exc).__name__}]", f"{what}: {r.exc!r}"))
+    return Outcome(f"jws-many:{'ok' if r.ok else 'rej'}:{n >= 16}", vs, nontrivial=(n, repr(other), pos, where, how))
+
+
 # ------------------------------------------------------------------ several recipients: every entry's alg is gated
 OTHER_ENTRIES = [("A192KW", "oct24", None), ("RSA1_5", "rsa", None), ("A128GCMKW", "oct16", None), ("PBES2-HS256+A128KW", "oct16", None),
                  ("A256KW", "oct32", None), ("A192KW", "oct24", "FOO"), ("A192KW", "oct24", "a128kw"), ("A192KW", "oct24", ""),
@@ -471,6 +497,8 @@ class GateModel:
             ("jwe.decrypt-enc", "XC20P", ("dir", "XC20P")), ("jwe.decrypt", "ECDH-1PU", None), ("jwe.decrypt", "ECDH-1PU", ("ECDH-1PU", "A128GCM")),
             ("jwe.decrypt-json", "A192KW", None), ("jwe.decrypt-unknown-list", "A128KW", ("FOO", "BAR")),
             ("register", "ecdh-1pu", None), ("register", "chacha20", None),
+            # an application that decides to treat one more algorithm as recommended registers its model again with that flag
+            ("register", "A192KW-as-recommended", None), ("register", "HS384-as-recommended", None),
             # the caller keeps one list object, passes it, and later changes it
             ("jws.verify-callers-list", "HS256", None), ("jws.sign-callers-list", "HS256", None), ("caller-appends-to-its-list", "HS384", None),
             ("jws.verify", "HS384", ("HS256",)), ("jws.verify-json", "HS384", ("HS256",)), ("jws.sign", "HS384", ("HS256",)),
@@ -498,6 +526,16 @@ class GateModel:
             if name == "ecdh-1pu":
                 from joserfc.drafts.jwe_ecdh_1pu import register_ecdh_1pu
                 register_ecdh_1pu()
+            elif name.endswith("-as-recommended"):
+                import copy as _copy
+                if name.startswith("A192KW"):
+                    m = _copy.copy(jwe.JWERegistry.algorithms["alg"]["A192KW"])
+                    m.recommended = True
+                    jwe.JWERegistry.register(m)
+                else:
+                    m = _copy.copy(jws.JWSRegistry.algorithms["HS384"])
+                    m.recommended = True
+                    jws.JWSRegistry.register(m)
             else:
                 from joserfc.drafts.jwe_chacha20 import register_chaha20_poly1305
                 register_chaha20_poly1305()
@@ -578,7 +616,11 @@ class GateModel:
             kind, name, L = op
             return [viol(f"outcome of {kind} depends on earlier calls [{name}, allow-list {'explicit' if L else 'default'}]",
                          f"after history {list(hist)} the call {op} observed {obs!r}; as the first call of a fresh process (same registrations {sorted(regs)}) it observes {base!r}")]
-        # the absolute expectation as well
+        # the absolute expectation as well: an algorithm registered as recommended is usable by calls that pass no list
+        kind, name, L = op
+        if L is None and f"{name}-as-recommended" in regs and kind in ("jwe.encrypt", "jwe.decrypt", "jwe.decrypt-json", "jws.sign", "jws.verify", "jws.verify-json", "jwt.decode") \
+                and not str(obs).startswith("ok"):
+            return [viol(f"an algorithm registered as recommended is not usable without an explicit list [{kind}, {name}]", f"after history {list(hist)} the call {op} observed {obs!r}")]
         return []
 
 
@@ -599,6 +641,7 @@ PARTS = [
     Part("jwe-allow-lists", h_jwe, split_depth=3),
     Part("jwe-several-recipients", h_jwe_multi, split_depth=2),
     Part("jws-several-signatures", h_jws_multi, split_depth=2),
+    Part("jws-many-members-signed", h_jws_many, split_depth=2),
     Part("call-histories", custom=histories, engine="E2"),
     Part("thread-schedules", h_threads, bound={"quick": 1, "thorough": 2}, split_depth=2, budget={"quick": 2000, "thorough": 3000}, engine="E3"),
 ]
